@@ -51,7 +51,7 @@ func splitClasses(s *big.Int) (cl []string, nontrivial bool) {
 func propScalarMult(t *rapid.T) {
 	s, kind := gen.GLVScalar(t, "s")
 	pc := gen.Point(t, "P")
-	entry := rapid.SampledFrom(entries).Draw(t, "entry")
+	entry := gen.Sampled(entries).Draw(t, "entry")
 	alias := rapid.Bool().Draw(t, "alias") // receiver aliases P
 	lp, rep := represent(t, pc.P, "rep")
 	ls := lib.Sc(s)
@@ -238,3 +238,73 @@ func propDifferentialVolume(t *rapid.T) {
 }
 
 func TestC04_DifferentialVolume(t *testing.T) { rapid.Check(t, propDifferentialVolume) }
+
+// propSequence: several multiplications in a row on *related* points (the
+// same point again, its images under the endomorphism, which share y; its
+// negation, which shares x; its double) through drawn entry points.  Any
+// state carried from one call to the next -- a memoised table, a reused
+// scratch buffer -- shows up as a wrong product on the second or third call
+// even though every call is correct in isolation.
+func propSequence(t *rapid.T) {
+	cur := gen.NonIdentityPoint(t, "P").P
+	n := rapid.IntRange(2, 5).Draw(t, "calls")
+	var trace []string
+	rels := map[string]int{}
+	for i := 0; i < n; i++ {
+		rel := gen.Sampled([]string{"same", "lambda", "lambda", "lambda^2", "neg", "neg-lambda", "double", "plus-G", "fresh"}).Draw(t, fmt.Sprintf("rel%d", i))
+		if i == 0 {
+			rel = "first"
+		}
+		pt := cur
+		switch rel {
+		case "lambda":
+			pt = ref.Pt{X: ref.MulM(cur.X, ref.Beta, ref.P), Y: new(big.Int).Set(cur.Y)}
+		case "lambda^2":
+			pt = ref.Pt{X: ref.MulM(ref.MulM(cur.X, ref.Beta, ref.P), ref.Beta, ref.P), Y: new(big.Int).Set(cur.Y)}
+		case "neg":
+			pt = cur.Neg()
+		case "neg-lambda":
+			pt = ref.Pt{X: ref.MulM(cur.X, ref.Beta, ref.P), Y: ref.NegM(cur.Y, ref.P)}
+		case "double":
+			pt = cur.Double()
+		case "plus-G":
+			pt = cur.Add(ref.G())
+		case "fresh":
+			pt = gen.NonIdentityPoint(t, fmt.Sprintf("P%d", i)).P
+		}
+		if pt.Inf {
+			pt = ref.G()
+		}
+		rels[rel]++
+		s, kind := gen.GLVScalar(t, fmt.Sprintf("s%d", i))
+		entry := gen.Sampled(publicEntries).Draw(t, fmt.Sprintf("entry%d", i))
+		lp, ls := lib.Pt(pt), lib.Sc(s)
+		rcv := secp256k1.NewIdentityPoint()
+		switch entry {
+		case "ScalarMult":
+			rcv.ScalarMult(ls, lp)
+		case "DoubleScalarMultBasepointVartime(0,s,P)":
+			rcv.DoubleScalarMultBasepointVartime(secp256k1.NewScalar(), ls, lp)
+		case "MultiScalarMult([s],[P])":
+			rcv.MultiScalarMult([]*secp256k1.Scalar{ls}, []*secp256k1.Point{lp})
+		default:
+			rcv.MultiScalarMultVartime([]*secp256k1.Scalar{ls}, []*secp256k1.Point{lp})
+		}
+		trace = append(trace, fmt.Sprintf("%s(%s point, %s scalar)", entry, rel, kind))
+		if want := pt.Mul(s); !bytes.Equal(rcv.UncompressedBytes(), want.Uncompressed()) {
+			t.Fatalf("call %d of the sequence %v: %s(s=%x, P=%v) = %x, want %v", i+1, trace, entry, s, pt, rcv.UncompressedBytes(), want)
+		}
+		cur = pt
+	}
+	cl := []string{fmt.Sprintf("calls:%d", n)}
+	for r := range rels {
+		cl = append(cl, "rel:"+r)
+	}
+	stat.Case("sequence", cl, rels["lambda"]+rels["lambda^2"]+rels["neg"]+rels["neg-lambda"]+rels["same"] > 0, []byte(fmt.Sprintf("%v|%x", trace, cur.Uncompressed())), func() any {
+		return map[string]any{"calls": trace}
+	})
+}
+
+var publicEntries = []string{"ScalarMult", "DoubleScalarMultBasepointVartime(0,s,P)", "MultiScalarMult([s],[P])", "MultiScalarMultVartime([s],[P])"}
+
+func TestC04_Sequence(t *testing.T) { rapid.Check(t, propSequence) }
